@@ -105,7 +105,10 @@ static void run_kind(vrt::Exec& x)
                                 vrt::log_ev("hget", "cell", 1, 1);
                                 r = rmw(h, tid);
                                 vrt::log_ev("hrel", "cell", 1, 1);
-                            } else r = -1;
+                            } else {
+                                r = -1;
+                                h.unlock();  // unconditional clean-up of a null handle must be a no-op
+                            }
                         } else if (op == 2) {
                             if constexpr (timedM<M>) {
                                 auto h = A->try_lock_for(d);
@@ -113,7 +116,10 @@ static void run_kind(vrt::Exec& x)
                                     vrt::log_ev("hget", "cell", 1, 1);
                                     r = rmw(h, tid);
                                     vrt::log_ev("hrel", "cell", 1, 1);
-                                } else r = -1;
+                                } else {
+                                    r = -1;
+                                    h.unlock();  // unconditional clean-up of a null handle must be a no-op
+                                }
                             }
                         } else if (op == 13) {
                             auto h = A->lock();
@@ -141,7 +147,10 @@ static void run_kind(vrt::Exec& x)
                                 vrt::log_ev("hget", "cell", 1, 0);
                                 r = h->read();
                                 vrt::log_ev("hrel", "cell", 1, 0);
-                            } else r = -1;
+                            } else {
+                                r = -1;
+                                h.unlock();  // unconditional clean-up of a null handle must be a no-op
+                            }
                         } else if (op == 7) {
                             if constexpr (timedM<M>) {
                                 auto h = A->try_lock_shared_for(d);
@@ -149,7 +158,10 @@ static void run_kind(vrt::Exec& x)
                                     vrt::log_ev("hget", "cell", 1, 0);
                                     r = h->read();
                                     vrt::log_ev("hrel", "cell", 1, 0);
-                                } else r = -1;
+                                } else {
+                                    r = -1;
+                                    h.unlock();  // unconditional clean-up of a null handle must be a no-op
+                                }
                             }
                         }
                     }
